@@ -299,3 +299,44 @@ func VerifC15StopRace() {
 	verifAssert(e.conn.closed, "stopped-connection-not-closed")
 	verifReach("done")
 }
+
+func init() {
+	verifHarnesses["VerifC15Counts"] = VerifC15Counts
+}
+
+// VerifC15Counts: correctly framed list messages (inv, headers, addr) whose declared item count is
+// any 64-bit value in any varint encoding, followed by a few arbitrary bytes: no handler crashes
+// and none sizes an allocation from the declared count.
+func VerifC15Counts() {
+	cmds := []string{wire.CmdInv, wire.CmdHeaders, wire.CmdAddr}
+	cmd := cmds[pick("command", len(cmds))]
+	e := newNetEnv(true)
+	if cmd == wire.CmdHeaders && nondetBool("while-verifying") {
+		e.node.handshakeIsComplete.Store(true)
+	} else {
+		e.makeReady()
+	}
+	var payload []byte
+	switch pick("varint-size", 4) {
+	case 0:
+		b := nondetU8("count8")
+		verifAssume(b < 0xfd)
+		payload = []byte{b}
+	case 1:
+		payload = append([]byte{0xfd}, nondetBytes("count16", 2)...)
+	case 2:
+		payload = append([]byte{0xfe}, nondetBytes("count32", 4)...)
+	case 3:
+		payload = append([]byte{0xff}, nondetBytes("count64", 8)...)
+	}
+	tail := pick("tail", verifParam("maxtail", 2)+1)
+	payload = append(payload, nondetBytes("items", tail)...)
+	e.conn.in = frameMsg(cmd, payload, false)
+	verifSetAllocBudget(len(e.conn.in) + 65536)
+	err := e.node.handleMessage(e.ctx, e.conn)
+	left := verifQuiesce()
+	verifAllocDone()
+	verifObserve("counts", cmd, len(payload), err == nil)
+	verifAssert(left == 0, "goroutine-left-blocked-after-message")
+	verifReach("done")
+}
